@@ -1125,7 +1125,8 @@ class FileBuilder:
         try:
             return self._simple_operation_executor.file_comparison_result(
                 filename, file_comparison.name)
-        except (FileNotFoundError, IsADirectoryError):
+        except (FileNotFoundError, IsADirectoryError, NotADirectoryError):
+            # NotADirectoryError: a parent directory was replaced with a file
             return None
 
     def _is_build_file_cached(self, operation):
